@@ -92,6 +92,25 @@ func c07Recipe(recipe string) []byte {
 		}
 		body := append([]byte{byte(a)<<2 | 3, byte(n >> 16), byte(n >> 8), byte(n)}, pay...)
 		return wrapMsg(body)
+	case "prefixed": // an outer list holding a complete list of a one-byte items, then (b>>1) nested list headers that each
+		// declare a elements (b&1 = 0) or as many as the bytes behind them allow (b&1 = 1), then 2a filler bytes
+		depth, greedy := b>>1, b&1 == 1
+		body := []byte{0x01, 0x02}
+		body = append(body, 0x03, byte(a>>16), byte(a>>8), byte(a))
+		body = append(body, bytes.Repeat([]byte{0xA5, 0x01, 0x07}, a)...)
+		tail := 2 * a
+		for i := 0; i < depth; i++ {
+			n := a
+			if greedy {
+				n = (tail + 4*(depth-1-i)) / 2
+				if n > 1<<24-1 {
+					n = 1<<24 - 1
+				}
+			}
+			body = append(body, 0x03, byte(n>>16), byte(n>>8), byte(n))
+		}
+		body = append(body, bytes.Repeat([]byte{0x01, 0x00}, a)...)
+		return wrapMsg(body)
 	case "greedy": // a nested list headers with b length bytes, each declaring as many children as the guard "2 bytes per child" lets through
 		total := a * (1 + b)
 		var body []byte
@@ -224,6 +243,21 @@ func c07Jobs(c *ctx) (small []iso.Job, large []iso.Job) {
 			small = append(small, iso.Job{Input: c07Recipe(r), Family: "greedy-nested-lists", Meta: r})
 		}
 	}
+	// a hostile tail behind a legitimate large prefix in the same message (what the decoder learnt from the prefix must not
+	// size what it allocates for the tail)
+	for _, n := range []int{1000, 10000, c.pick(30000, 120000)} {
+		for _, depth := range []int{100, 1000, c.pick(2000, 8000)} {
+			for g := 0; g < 2; g++ {
+				r := fmt.Sprintf("prefixed %d %d", n, depth<<1|g)
+				j := iso.Job{Input: c07Recipe(r), Family: "legit-prefix-then-hostile-tail", Meta: r}
+				if len(j.Input) > 32<<10 {
+					large = append(large, j)
+				} else {
+					small = append(small, j)
+				}
+			}
+		}
+	}
 	// (b) long legitimate items
 	sizes := []int{65536, 1 << 20}
 	if c.thorough {
@@ -277,7 +311,7 @@ func c07Jobs(c *ctx) (small []iso.Job, large []iso.Job) {
 }
 
 func runC07(c *ctx) {
-	c.Rule = "inputs run in child worker processes (ulimit -v 4 GiB, watchdog); oracle: no panic escapes hsms.Parse, the worker does not abort, the decoder's item-step counter (hook H3) stays within len(input)+2, TotalAlloc delta <= 1 MiB + 2048*len(input). Families: every format x 1/2/3 length bytes x declared length {0,1,255,256,65535,65536,2^24-1} x bytes present {0,1,declared-1,declared} at list depth {0,1,2,7,64} inside over-declaring lists; long legitimate items; long items of every format with hostile payload patterns (0x00, 0x7F, 0x80, 0xFF, alternating 7/8-bit, pseudo-random, quote/backslash/line-break/UTF-8 runs, 8-bit second half); lists of many small items of every format; generated legitimate trees up to ~1 MB; nested lists each declaring the largest count the remaining bytes allow; closed/unclosed one-element list chains; every single-point fault of seed encodings (the C03 enumerator); random bytes behind a correct length prefix; seven 1 KiB messages (refused after part was decoded, and accepted) each repeated thousands of times in one worker process (per-call allocation must not depend on history); the deep-chain probe. non-trivial = input declares a length larger than the bytes that follow, or is >= 4 KiB; distinct by hash"
+	c.Rule = "inputs run in child worker processes (ulimit -v 4 GiB, watchdog); oracle: no panic escapes hsms.Parse, the worker does not abort, the decoder's item-step counter (hook H3) stays within len(input)+2, TotalAlloc delta <= 1 MiB + 2048*len(input). Families: every format x 1/2/3 length bytes x declared length {0,1,255,256,65535,65536,2^24-1} x bytes present {0,1,declared-1,declared} at list depth {0,1,2,7,64} inside over-declaring lists; long legitimate items; long items of every format with hostile payload patterns (0x00, 0x7F, 0x80, 0xFF, alternating 7/8-bit, pseudo-random, quote/backslash/line-break/UTF-8 runs, 8-bit second half); lists of many small items of every format; generated legitimate trees up to ~1 MB; nested lists each declaring the largest count the remaining bytes allow; closed/unclosed one-element list chains; every single-point fault of seed encodings (the C03 enumerator); random bytes behind a correct length prefix; seven 1 KiB messages (refused after part was decoded, and accepted) each repeated thousands of times in one worker process (per-call allocation must not depend on history); a complete list of n items followed in the same message by chains of over-declaring list headers (hostile tail behind a legitimate prefix); the deep-chain probe. non-trivial = input declares a length larger than the bytes that follow, or is >= 4 KiB; distinct by hash"
 	c.Assume = []string{"runtime.MemStats.TotalAlloc measures the memory allocated during one call in a single-goroutine worker", "the bound's constants (1 MiB + 2048 B/byte) are ~4x the most expensive legitimate construct measured on this tree"}
 
 	small, large := c07Jobs(c)
@@ -336,7 +370,7 @@ func runC07(c *ctx) {
 
 	// distinct / non-trivial accounting (parent side, from the job list)
 	for _, j := range append(append([]iso.Job{}, small...), large...) {
-		nontrivial := len(j.Input) >= 4096 || j.Family == "declared-vs-present" || j.Family == "unclosed-chain" || j.Family == "greedy-nested-lists" || j.Family == "nest-around-a-large-item" || j.Family == "nest-with-leaf-per-level"
+		nontrivial := len(j.Input) >= 4096 || j.Family == "declared-vs-present" || j.Family == "unclosed-chain" || j.Family == "greedy-nested-lists" || j.Family == "nest-around-a-large-item" || j.Family == "nest-with-leaf-per-level" || j.Family == "legit-prefix-then-hostile-tail"
 		if !nontrivial {
 			if _, ok := ref.Decode(j.Input); !ok {
 				nontrivial = true
@@ -436,7 +470,7 @@ func runC07(c *ctx) {
 			c.Sample(map[string]interface{}{"family": j.Family, "len": len(j.Input), "input": hex.EncodeToString(clipB(j.Input))})
 		}
 	}
-	c.Required = []string{"hook-H3-reached", "family/declared-vs-present", "family/single-point-fault", "family/long-item", "family/long-item-payload-patterns", "family/many-small-items", "family/generated-tree", "family/closed-chain", "family/nest-with-leaf-per-level", "family/nest-around-a-large-item", "family/greedy-nested-lists", "family/random", "family/repeat-in-one-process", "accepted", "rejected"}
+	c.Required = []string{"hook-H3-reached", "family/declared-vs-present", "family/single-point-fault", "family/long-item", "family/long-item-payload-patterns", "family/many-small-items", "family/generated-tree", "family/closed-chain", "family/nest-with-leaf-per-level", "family/nest-around-a-large-item", "family/greedy-nested-lists", "family/random", "family/repeat-in-one-process", "family/legit-prefix-then-hostile-tail", "accepted", "rejected"}
 }
 
 // c07HistoryInputs: messages that are refused after part of their content was decoded (in a list, in a nested list,
